@@ -265,6 +265,15 @@ func (st *c03State) classify(s mapSite) {
 				if !ok || fieldOf(info, ix.X) != mf {
 					continue
 				}
+				// the same field of another value (`newType.Hints[k] = …` while ranging over t.Hints, newType a fresh local)
+				// is another map
+				if !sameAccessPath(info, ix.X, s.rs.X) {
+					if root := rootIdent(ix.X); root != nil {
+						if _, isLocal := objOf(info, root).(*types.Var); isLocal && rootIdent(s.rs.X) != nil && objOf(info, root) != objOf(info, rootIdent(s.rs.X)) {
+							continue
+						}
+					}
+				}
 				ast.Inspect(as.Rhs[i], func(q ast.Node) bool {
 					if c, ok := q.(*ast.CallExpr); ok {
 						if fn := callee(info, c); fn != nil && st.readsField(fn, mf, 0, map[*types.Func]bool{}) {
